@@ -20,7 +20,7 @@ from dataclasses import dataclass, field
 from typing import Any, Optional
 
 from .srcmodel import Model, Module, ClassInfo, FuncInfo, AnalysisError, Unfoldable, \
-    walk_local, stmt_text
+    walk_local, stmt_text, dotted
 
 TOKEN_DEFAULTS = {'lbp': 0, 'rbp': 0, 'label': 'symbol', 'pattern': None}
 
@@ -674,6 +674,16 @@ class RegModel:
                 if fi is None:
                     raise AnalysisError(f'{mod.relpath}:{st.lineno}: function not indexed')
                 for dec in st.decorator_list:      # evaluated top-down
+                    # decorators imported from outside the package (contextmanager, cache,
+                    # lru_cache(...), wraps(...)) are not part of the registration DSL
+                    dname = dotted(dec.func if isinstance(dec, ast.Call) else dec)
+                    if dname:
+                        try:
+                            kind_, _ = self.model.resolve(mod, dname.split('.')[0])
+                        except Exception:           # noqa: BLE001
+                            kind_ = ''
+                        if kind_ == 'external':
+                            continue
                     if not isinstance(dec, ast.Call):
                         raise AnalysisError(f'{mod.relpath}:{dec.lineno}: decorator is not a '
                                             f'call: {stmt_text(dec)}')
